@@ -402,6 +402,20 @@ func runBlockBase(sc *BlockCase, res *BlockResult) {
 		} else if sc.L == "fromHandler" {
 			ret = fromHandler
 			res.Steered = true
+		} else if sc.L == "inWrite" {
+			// the request's packet is held inside Transport.Write; the held write returns once the transport is closed
+			g := w.GateAtNextWrite()
+			mkctx()
+			ret = startCall(cctx, cli, sc.K, 1)
+			select {
+			case <-g.Reached():
+				res.Steered = true
+			case <-time.After(2 * time.Second):
+			}
+			go func() {
+				waitFor(t.IsClosed, 6*time.Second)
+				g.Release()
+			}()
 		} else {
 			if cctx == nil {
 				mkctx()
@@ -448,7 +462,11 @@ func runBlockBase(sc *BlockCase, res *BlockResult) {
 	case "ctxDeadline":
 		// expires by itself
 	case "localClose":
-		cli.Close()
+		if sc.L == "inWrite" {
+			go cli.Close() // (a Close that waits for the held write would hang the driver)
+		} else {
+			cli.Close()
+		}
 	case "peerClose":
 		t.PeerClose()
 	case "malformed":
